@@ -1,21 +1,7 @@
-(* Alg/PLEProofs4.v — C03, part 4: the block recursion [ple_rec] (= _mzd_ple, ple.c:62).
-
-   PROVEN here: [ple_rec_nonrec_partial] — the two non-recursive paths of _mzd_ple (the input has no
-   non-zero row, ple.c:66-70; the base-case regime ncols <= 64 or width * nrows <= cutoff,
-   ple.c:74-81) meet [ple_spec], for every base case meeting it.
-
-   NOT PROVEN (the full statement, C03_rec of DESIGN.md):
-
-     Theorem ple_rec_spec : forall base, base_ok base ->
-       forall cutoff A P0 Q0, wf A -> length P0 = nr A -> length Q0 = nc A ->
-       ple_spec A (ple_rec base cutoff A P0 Q0).
-
-   i.e. the recursive path (column split at n1, mzd_apply_p_left on A1, TRSM, Schur complement,
-   second call, P/Q offset fix-ups, _mzd_compress_l).  What stands in for it: the verified checker
-   [ple_ok] run on the outputs of the library and of this model ([ex_rec_accept] in
-   Properties_C03.v evaluates the model on inputs that take the recursive path with r1 < n1 and
-   r2 > 0, r1 = n1, and two levels of recursion).  Note that the statement is only true since the
-   clause "Q[j] = j beyond r" was removed from the specification ([ple_rec_Q_tail_refuted]). *)
+(* Alg/PLEProofs4.v — C03, part 4: the block recursion [ple_rec] (= _mzd_ple, ple.c:62), easy part:
+   the hypothesis [base_ok] on the base case, and the two non-recursive paths of _mzd_ple (the input
+   has no non-zero row, ple.c:66-70; the base-case regime ncols <= 64 or width * nrows <= cutoff,
+   ple.c:74-81).  The recursive path and the full theorem [ple_rec_spec] are in PLEProofs6-10.v. *)
 From Coq Require Import List NArith Arith Lia Bool Sorted.
 From M4 Require Import Base.Bits Lin.Mat Lin.MatAlg Lin.Ops Lin.Spec Lin.Perm Lin.Observers
   Alg.PLE Alg.PLELemmas Alg.PLESpec Alg.PLEProofs Alg.PLEProofs2 Alg.PLEProofs3.
@@ -49,7 +35,7 @@ Qed.
 Definition ple_rec_nonrec (cutoff : nat) (A : mat) : bool :=
   (first_zero_row A =? 0) || (nc A <=? radix) || (((nc A + radix - 1) / radix) * nr A <=? cutoff).
 
-Theorem ple_rec_nonrec_partial base cutoff A P0 Q0 :
+Theorem ple_rec_nonrec_spec base cutoff A P0 Q0 :
   base_ok base -> wf A -> length P0 = nr A -> length Q0 = nc A ->
   ple_rec_nonrec cutoff A = true ->
   ple_spec A (ple_rec base cutoff A P0 Q0).
